@@ -47,7 +47,9 @@ def _templates(tier):
         ts += [("str-laws", a, b)]
     ts += [("map-lookup", k) for k in ("int", "string")]
     ts += [("map-literal", k) for k in ("int", "string")]
-    ts += [("map-select",), ("matches-invalid",), ("in-map",)]
+    ts += [("map-select",), ("matches-invalid",), ("in-map",), ("in-self-double",)]
+    for n in range(2, nmax + 1):
+        ts += [("nested-macro", n)]
     return ts
 
 
@@ -194,6 +196,91 @@ def _harnesses(t, runner):
             return obs
         return [Harness(id=f"C09/in/{n}@{runner}", vars=vars, pre=pre + kpre, run=run,
                         witness=lambda vals: wit("in-exists", vals, n=n), max_paths=300)]
+
+    if kind == "in-self-double":
+        # membership of a double in a list holding the very same object (NaN is not a member of anything; -0.0 == 0.0)
+        from ..sym import core as _core
+        from ..sym.core import SFloat, mkf
+        X, Y = z3.FP("x", _core.F64), z3.FP("y2", _core.F64)
+        progs = [(src, common.make_program(src, runner), spec) for src, spec in
+                 (("x in l", z3.fpEQ(X, X)), ("x in [x]", z3.fpEQ(X, X)), ("l.exists(y, y == x)", z3.fpEQ(X, X)), ("[x].map(y, y in [y])[0]", z3.fpEQ(X, X)),
+                  ("x in [y2, x]", z3.Or(z3.fpEQ(X, Y), z3.fpEQ(X, X))), ("x in l2", z3.Or(z3.fpEQ(X, Y), z3.fpEQ(X, X))),
+                  ("l2.exists(y, y == x)", z3.Or(z3.fpEQ(X, Y), z3.fpEQ(X, X))))]
+
+        def run(vals):
+            x = ct.DoubleType(mkf(SFloat, X, vals["x"]))
+            y = ct.DoubleType(mkf(SFloat, Y, vals["y2"]))
+            b = {"x": x, "y2": y, "l": ct.ListType([x]), "l2": ct.ListType([y, x])}
+            obs = []
+            for src, p, spec in progs:
+                kd, r = common.outcome(lambda: p.evaluate(dict(b)))
+                if kd != "value":
+                    obs.append(Ob(f"C09/in-double/no-error@{runner}", z3.BoolVal(False), note=f"`{src}`: {kd} {r!r}"[:140]))
+                else:
+                    obs.append(Ob(f"C09/in-double/membership@{runner}", bool_term(r) == spec, note=f"`{src}`"))
+            return obs
+        return [Harness(id=f"C09/in-self-double@{runner}", vars={"x": X, "y2": Y}, pre=[], run=run,
+                        witness=lambda vals: wit("in-self-double", vals), max_paths=200)]
+
+    if kind == "nested-macro":
+        # a macro inside a macro body that reads the outer iteration variable, over several different outer items
+        n = t[1]
+        vars, pre = _list_vars(n)
+        mv, mp = _list_vars(2, "m")
+        vars.update(mv)
+        el, em = _elems(n), _elems(2, "m")
+        small = [z3.And(e >= -(2**62), e < 2**62) for e in el + em]
+        p_map = common.make_program("l.map(x, m.map(y, x + y))", runner)
+        p_flt = common.make_program("l.filter(x, m.exists(y, y == x))", runner)
+        p_one = common.make_program("l.exists_one(x, m.all(y, y != x))", runner)
+        p_deep = common.make_program("l.map(x, m.filter(y, y > x).map(z, z - x))", runner)
+
+        def run(vals):
+            b = {"l": _bind_list(n, vals), "m": _bind_list(2, vals, "m")}
+            obs = []
+            kd, r = common.outcome(lambda: p_map.evaluate(dict(b)))
+            if kd != "value":
+                obs.append(Ob(f"C09/nested/map-no-error@{runner}", z3.BoolVal(False), note=f"{kd} {r!r}"[:140]))
+            else:
+                rows = [list(list.__iter__(row)) for row in list.__iter__(r)]
+                ok = len(rows) == n and all(len(row) == 2 for row in rows)
+                obs.append(Ob(f"C09/nested/map-elementwise@{runner}", z3.And([tm(rows[i][j]) == el[i] + em[j] for i in range(n) for j in range(2)]) if ok else z3.BoolVal(False)))
+            kd, r = common.outcome(lambda: p_flt.evaluate(dict(b)))
+            if kd != "value":
+                obs.append(Ob(f"C09/nested/filter-no-error@{runner}", z3.BoolVal(False), note=f"{kd} {r!r}"[:140]))
+            else:
+                got = _result_list_terms(r)
+                keep = [z3.Or(e == em[0], e == em[1]) for e in el]
+                # the result is the subsequence of kept elements: its length is the number kept and it lists them in order
+                cnt = z3.Sum([z3.If(k_, 1, 0) for k_ in keep])
+                conds = [cnt == len(got)]
+                for j in range(len(got)):
+                    # the j-th result is the element at the position whose kept-prefix count is j
+                    conds.append(z3.Or([z3.And(keep[i], z3.Sum([z3.If(keep[q], 1, 0) for q in range(i)] + [z3.IntVal(0)]) == j, got[j] == el[i]) for i in range(n)]))
+                obs.append(Ob(f"C09/nested/filter-subsequence@{runner}", z3.And(conds)))
+            kd, r = common.outcome(lambda: p_one.evaluate(dict(b)))
+            if kd != "value":
+                obs.append(Ob(f"C09/nested/exists-one-no-error@{runner}", z3.BoolVal(False), note=f"{kd} {r!r}"[:140]))
+            else:
+                sat_ = [z3.And(e != em[0], e != em[1]) for e in el]
+                obs.append(Ob(f"C09/nested/exists-one@{runner}", bool_term(r) == (z3.Sum([z3.If(c, 1, 0) for c in sat_]) == 1)))
+            kd, r = common.outcome(lambda: p_deep.evaluate(dict(b)))
+            if kd != "value":
+                obs.append(Ob(f"C09/nested/deep-no-error@{runner}", z3.BoolVal(False), note=f"{kd} {r!r}"[:140]))
+            else:
+                rows = [[tm(v) for v in list.__iter__(row)] for row in list.__iter__(r)]
+                conds = [z3.BoolVal(len(rows) == n)]
+                for i, row in enumerate(rows[:n]):
+                    gt = [em[j] > el[i] for j in range(2)]
+                    conds.append(z3.Sum([z3.If(g, 1, 0) for g in gt]) == len(row))
+                    if len(row) == 2:
+                        conds += [row[0] == em[0] - el[i], row[1] == em[1] - el[i]]
+                    elif len(row) == 1:
+                        conds.append(z3.Or(z3.And(gt[0], row[0] == em[0] - el[i]), z3.And(z3.Not(gt[0]), gt[1], row[0] == em[1] - el[i])))
+                obs.append(Ob(f"C09/nested/deep-elementwise@{runner}", z3.And(conds)))
+            return obs
+        return [Harness(id=f"C09/nested-macro/{n}@{runner}", vars=vars, pre=pre + mp + small, run=run,
+                        witness=lambda vals: wit("nested-macro", vals, n=n), max_paths=400)]
 
     if kind == "index":
         n = t[1]
